@@ -99,6 +99,20 @@ def run_cfg(ctx, fx):
                     if s.get("in") == w:
                         stored.append(s["src"])
         ok = keys == [expect_m] and stored == ["addr::sender::Sender<%s>" % expect_m]
+        if not keys:
+            # the key may be computed by a method of the table's wrapper type instantiated at the message type:
+            # `self.children.slot::<M>()` with `fn slot<M>(&mut self) { self.0.entry(TypeId::of::<M>()) .. }`
+            for _bk, tk in b.normal_calls():
+                hk = fx.callee_fn(tk)
+                if hk is None or hk.get("is_async") or hk["def"] in WRITERS:
+                    continue
+                hkeys = [x["gargs"][0] for _y, x in ctx.body(fx, hk).normal_calls() if (x.get("callee") or "").endswith("::of") and "TypeId" in (x.get("destty") or "")]
+                gen = hk.get("generics") or []
+                ga = tk.get("gargs") or []
+                for hkey in hkeys:
+                    if hkey in gen and gen.index(hkey) < len(ga):
+                        keys.append(ga[gen.index(hkey)])
+            ok = keys == [expect_m] and stored == ["addr::sender::Sender<%s>" % expect_m]
         if not keys and stored in ([], ["addr::sender::Sender<%s>" % expect_m]):
             # delegation: `self.register_child::<()>(child)` — the other writer instantiated at the expected message type,
             # given this function's own child parameter
@@ -115,14 +129,36 @@ def run_cfg(ctx, fx):
     if f is not None:
         fam = graph.family(fx, f["def"])
         keys, casts = [], []
-        for g in fam:
+
+        def scan(g, subst, depth):
             b = ctx.body(fx, g)
             for _, t in b.normal_calls():
                 c = t.get("callee") or ""
                 if c.endswith("::of") and "TypeId" in (t.get("destty") or ""):
-                    keys.append(t["gargs"][0])
+                    keys.append(subst(t["gargs"][0]))
                 if c.endswith("::downcast_ref") or c.endswith("::downcast"):
-                    casts.append(t["gargs"][0] if t["gargs"] else None)
+                    casts.append(subst(t["gargs"][0]) if t["gargs"] else None)
+                # the lookup may live in methods of the table's wrapper type (`self.children.senders::<M>()`), also when
+                # such a method is passed on as a function value (`filter_map(Self::as_sender::<M>)`)
+                cands = [(fx.callee_fn(t), t.get("gargs") or [])]
+                for a in t["args"]:
+                    if a.get("k") == "const" and a.get("fn") in fx.fns:
+                        cands.append((fx.fns[a["fn"]], a.get("gargs") or []))
+                for h, ga in cands:
+                    if h is not None and depth < 2 and not h.get("is_async") and h["kind"] in ("fn", "assoc_fn") and (h.get("impl_self") or "").startswith("context::") and h["def"] not in WRITERS:
+                        gen = h.get("generics") or []
+                        m = {gen[i]: subst(ga[i]) for i in range(min(len(gen), len(ga)))}
+
+                        def sub2(s, _m=m):
+                            import re as _re
+                            return _re.sub(r"\b(%s)\b" % "|".join(map(_re.escape, _m)), lambda mo: _m[mo.group(1)], s) if _m else s
+                        for hh in graph.family(fx, h["def"]):
+                            scan(hh, sub2, depth + 1)
+        for g in fam:
+            scan(g, lambda s: s, 0)
+        if False:
+            for _ in ():
+                pass
         ok = keys == ["M"] and casts == ["addr::sender::Sender<M>"]
         ctx.require(ok, "R16.2", "lookup:send_to_children", "broadcast must look up TypeId::of::<M>() and downcast to Sender<M>: keys %s casts %s" % (keys, casts), fn=f["def"], site=f["loc"], detail={"key": keys, "downcast": casts})
         # R16.3
